@@ -334,7 +334,7 @@ func init() {
 		if os.Getenv("LSH_TRACE") != "" {
 			fmt.Fprintln(os.Stderr, "PANIC", f[0], txt)
 		}
-		if !strings.HasPrefix(f[0], "txn.") || !(strings.Contains(txt, "fault") || strings.Contains(txt, "invalid memory address")) || len(f) < 2 {
+		if !(strings.HasPrefix(f[0], "txn.") || strings.HasPrefix(f[0], "prop.c")) || !(strings.Contains(txt, "fault") || strings.Contains(txt, "invalid memory address")) || len(f) < 2 {
 			return ""
 		}
 		i, ok := insts[f[1]]
